@@ -65,7 +65,7 @@ SKIP_PATTERNS = [   # (regex on key, switch) for keys whose first frame depends 
     (r"asn1_tag_name", "tagname"),
     (r"pem_read|base64_decode", "pem"),
     (r"check/pem/", "pem"),
-    (r"tls_process_client_hello_exts|tls13_process_client_hello_exts|check/tls/ch", "chexts"),
+    (r"tls_process_client_hello_exts|tls13_process_client_hello_exts|check/tls/ch|tls13_key_share_entry_to_bytes|tls13_server_key_share_ext_to_bytes|tls13_process_client_key_share", "chexts"),
     (r"tls_process_client_(ec_point_formats|supported_groups|signature_algorithms)|tls_(ec_point_formats|supported_groups|signature_algorithms)_ext_to_bytes", "chexts"),
     (r"tls13_record_get_handshake_certificate_verify|tls13_verify_certificate_verify|check/tls13/certificate_verify_outputs", "cv13"),
     (r"tls_record_get_handshake_certificate|tls13_process_certificate_list|x509_cert_to_der|asn1_any_to_der|check/peer/(server|client)_certs_len|check/peer/ca_certs|check/peer/own_certs|check/tls/certs_len", "certs2048"),
